@@ -458,7 +458,7 @@ def render(e):
     if k == 'eof': return '$'
     if k == 'const': return '`' + str(e[1]) + '`'
     if k == 'emptyc': return '{}'
-    if k == 'seq': return ' '.join(render(x) for x in e[1])
+    if k == 'seq': return ' '.join(('(' + render(x) + ')') if x[0] == 'alt' else render(x) for x in e[1])
     if k == 'grp': return '(' + render(e[1]) + ')'
     if k == 'skipgrp': return '(?:' + render(e[1]) + ')'
     if k == 'alt': return ' | '.join(render(x) for x in e[1])
